@@ -9,6 +9,7 @@ Require Import Zrs.model.HufDec Zrs.model.LitEnc Zrs.proofs.C02_Concrete.
 Require Import Zrs.model.SeqNorm Zrs.proofs.C02_O1.
 Require Import Zrs.proofs.C02_HufSide Zrs.proofs.C02_O2Table.
 Require Import Zrs.model.HufEnc Zrs.proofs.C13_Agree Zrs.proofs.C02_O2Huffman Zrs.proofs.C02_O2Complete.
+Require Import Permutation Zrs.proofs.C02_O2Shape.
 Open Scope Z_scope.
 
 (** level Uncompressed: every input, every fragmentation of the source reads, every block size up to 128 KiB, every
@@ -264,6 +265,24 @@ Theorem C02_huffman_literals_meet_O2_for_every_complete_code : forall ws lw M,
       exists t, lit_ok h lits (huf_lit_header 2 (zlen lits) (zlen payload)) payload t.
 Proof. exact huffman_section_for_complete_weights. Qed.
 
+(** ... and for the weights the compressor uses: for every alphabet size n = 2..256 its weight multiset [shape n] is a
+    complete code of depth at most 11 (C13, complete sweep); HOWEVER those weights are distributed over the symbols --
+    the compressor does it by rank of the counts, unused symbols get weight 0 --, the resulting list is complete, the
+    decoder accepts it and the Huffman-coded section is read back as the literals *)
+Theorem C02_huffman_literals_meet_O2_for_every_assignment_of_the_shape : forall n sh W,
+  2 <= n <= 256 -> shape n = ROk sh -> Permutation (filter (fun w => 0 <? w) W) sh ->
+  Forall (fun w => 0 <= w) W -> (length W <= 256)%nat -> 0 < last W 0 ->
+  let ws := removelast W in let lw := last W 0 in
+  exists codes, enc_build_from_weights W = ROk codes /\
+    forall h desc lits ft,
+      Forall (fun s => 0 <= s <= Z.of_nat (length ws) /\ 0 < nth (Z.to_nat s) W 0) lits ->
+      16 <= Z.of_nat (length lits) <= 131072 ->
+      let payload := desc ++ huf4_bytes (code_fn codes) lits in
+      read_weights h payload = ROk (ws, ft, zlen desc) -> zlen payload < zlen lits ->
+      exists t, lit_ok h lits (huf_lit_header 2 (zlen lits) (zlen payload)) payload t.
+Proof. exact huffman_section_for_every_assignment_of_the_shape. Qed.
+
+Print Assumptions C02_huffman_literals_meet_O2_for_every_assignment_of_the_shape.
 Print Assumptions C02_huffman_literals_meet_O2_for_every_complete_code.
 Print Assumptions C02_huffman_literals_meet_O2_for_any_weights.
 Print Assumptions C02_model_literals_section_meets_O2.
